@@ -21,6 +21,10 @@ def main() -> int:
             from checks import rules_family
 
             return rules_family.run(a.prop, tier, a.seed)
+        if a.prop == "C14":
+            from checks import c14
+
+            return c14.run(tier, a.seed)
         if a.prop == "C15":
             from checks import c15
 
